@@ -17,6 +17,16 @@ CHECKS = {
             "trusts Python's NFC implementation and that one representative per lexer character class behaves like "
             "the class; longer strings are sampled, not enumerated",
             "DESIGN.md §3 C04"),
+    "C02": ("exploration",
+            "model-based: Hypothesis-generated content model rendered to text; generator's content vs reader's AST",
+            "Documents are generated as explicit content (never as text), rendered in a conservative canonical spelling "
+            "and in seeded lenient spellings, read, canonicalised and re-read; after each read the AST's normal form "
+            "(names, order, nesting, typed values, targets, section ids/annotations, META, frontmatter, sentinel, "
+            "linearised comments) must equal the generator's. Sampled (tens of thousands of documents per run), not "
+            "exhaustive.",
+            "trusts the content model's expected-value rules (strings after NFC, NAME[a,b] => NAME<a,b>, multi-word joined "
+            "by one space); comment attachment is treated as layout; spellings limited to the documented freedoms",
+            "DESIGN.md §3 C02"),
 }
 
 NOT_YET = {
